@@ -25,6 +25,9 @@ class StreamBackend(LoggerBackend):
                       log_entry,  # type: LogEntry
                       log_data,  # type: LogData
                       ):
+        if self.stderr is None:
+            # started with stderr closed ('2>&-'): nowhere to write to
+            return
         if is_right_for_level(log_data.verbose, log_entry.level):
             for message in log_entry.resolve_messages():
                 try:
